@@ -34,8 +34,10 @@ type Object struct {
 	Size    *Term  // bytes: capacity of the backing array (64-bit)
 	Val     Value  // cells
 	Typ     types.Type
-	RO      bool // string data
-	Watch   bool // scheduling point on access (vfPreemptOnAccess)
+	RO      bool      // string data
+	Watch   bool      // scheduling point on access (vfPreemptOnAccess)
+	Doc     *docModel // JSON document model (credential store files)
+	DocLen  *Term     // full length of the document including its final newline
 }
 
 // SliceV is a slice or a string.  Obj==nil means nil slice / empty string.
